@@ -98,8 +98,8 @@ def harness(cpu=None):
     from props import c16
     return c16.build_shimmed("h_igzip_cpu", "h_igzip.c"), {"VERIF_CPU": cpu}
 
-def run_harness(scns, wd, tag, cpu=None, timeout=1800):
-    hb, env = harness(cpu)
+def run_harness(scns, wd, tag, cpu=None, timeout=1800, binary=None):
+    hb, env = (binary, {}) if binary else harness(cpu)
     sf, tf = os.path.join(wd, "scn-%s.txt" % tag), os.path.join(wd, "trace-%s.ndjson" % tag)
     write_scn_file(sf, scns)
     sh([hb, sf, tf, str(seed() % 1000003 + 17)], timeout=timeout, env=env)
